@@ -41,11 +41,11 @@ VARIANTS = {
         cflags=[
             "-O1", "-gline-tables-only", "-fno-omit-frame-pointer",
             "-fsanitize=address",
-            "-fsanitize=bounds,null,return,unreachable,vla-bound,pointer-overflow",
+            "-fsanitize=bounds,null,return,unreachable,vla-bound",
             "-fno-sanitize-recover=all",
         ],
         ldflags=["-fsanitize=address",
-                 "-fsanitize=bounds,null,return,unreachable,vla-bound,pointer-overflow",
+                 "-fsanitize=bounds,null,return,unreachable,vla-bound",
                  "-shared-libasan"],
     ),
 }
